@@ -252,13 +252,41 @@ def keys_and_wiring(ctx):
         res.fail(ctx.finding('ZMX-KEYS', sh, sh.node,
                              'surfaces are not stored under consecutive '
                              'indices', construct='SURF bookkeeping'))
-    # image surface appended after the stored ones
+    # every SURF block of the file becomes a surface: a block is stored when
+    # the next SURF line arrives, so the LAST block (the image surface) has to
+    # be stored when the file ends, and the converter adds exactly the stored
+    # surfaces (no blank surface in place of the written image surface)
+    from ..match import find
+    rf_ = _cls(P, 'ZemaxFileReader').methods['_read_file']
+    flush = [st for st in rf_.node.body if isinstance(st, ast.If) and
+             any("self.data['surfaces'][self._current_surf] = "
+                 "self._current_surf_data" in unparse(b) for b in st.body)] + \
+        [st for st in rf_.node.body if isinstance(st, ast.Assign) and
+         "self.data['surfaces'][self._current_surf]" in unparse(st.targets[0])]
+    loops = [st for st in rf_.node.body if isinstance(st, (ast.For, ast.While))]
+    if flush and loops and flush[0].lineno > loops[0].lineno:
+        res.ok('the last SURF block is stored when the file has been read')
+    else:
+        res.fail(ctx.finding(
+            'ZMX-KEYS', rf_, rf_.node,
+            'the last SURF block of the file (the image surface) is never '
+            'stored: its radius, conic and other data are dropped',
+            construct='last SURF block'))
     cfs = cv.methods['_configure_surfaces']
     s2 = Code(P, cfs)
-    if "self.optic.add_surface(index=len(self.data['surfaces']))" in s2 and \
-            "for idx, surf_data in self.data['surfaces'].items()" in s2 and \
+    extra = [c for c in ast.walk(cfs.node) if isinstance(c, ast.Call) and
+             isinstance(c.func, ast.Attribute) and
+             c.func.attr == 'add_surface']
+    if extra:
+        res.fail(ctx.finding(
+            'ZMX-KEYS', cfs, extra[0],
+            'the converter appends a default surface of its own: with the '
+            'last SURF block stored, the lens would have one surface more '
+            'than the file (or, without it, a blank image surface instead of '
+            'the written one)', construct='converter extra surface'))
+    if "for idx, surf_data in self.data['surfaces'].items()" in s2 and \
             'self._configure_surface(idx, surf_data)' in s2:
-        res.ok('all stored surfaces added in order, then the image surface')
+        res.ok('all stored surfaces added in file order')
     else:
         res.fail(ctx.finding('ZMX-KEYS', cfs, cfs.node,
                              'surface count / order not preserved',
@@ -573,7 +601,7 @@ def glass(ctx):
                              construct='glass name token'))
     # 'material' alone: the placeholder name, replaced below unless no
     # catalogue knows it (then the isinstance test sends it to the model glass)
-    allowed = [parse(x) for x in ('material', 'Material(material)',
+    allowed = [parse(x) for x in ('material', "'mirror'", 'Material(material)',
                                   'Material(material, manufacturer.lower())',
                                   'AbbeMaterial(n, v)')]
     nst = 0
@@ -589,6 +617,13 @@ def glass(ctx):
                         f'built from the name, index and Abbe number of this '
                         f'GLAS line', construct='glass material source'))
         if isinstance(st, ast.Return):
+            # the only early exit: the MIRROR keyword (a reflecting surface
+            # has no glass to resolve)
+            par = [p_ for p_ in ast.walk(m.node) if isinstance(p_, ast.If) and
+                   st in p_.body]
+            if par and unparse(par[0].test) in (
+                    "material.upper() == 'MIRROR'", "material == 'MIRROR'"):
+                continue
             res.fail(ctx.finding('GLASS', m, st,
                                  'a path leaves _read_glass before the '
                                  'catalogue / model-glass chain',
@@ -596,6 +631,21 @@ def glass(ctx):
     if nst < 4:
         raise AnalysisError('_read_glass: material stores not found')
     res.ok(f'{nst} material stores, each built from this line\'s tokens')
+    # GLAS MIRROR: a mirror is not a glass
+    mir = [p_ for p_ in ast.walk(m.node) if isinstance(p_, ast.If) and
+           unparse(p_.test) in ("material.upper() == 'MIRROR'",
+                                "material == 'MIRROR'") and
+           any("self._current_surf_data['material'] = 'mirror'" in unparse(b)
+               for b in p_.body)]
+    if mir:
+        res.ok("GLAS MIRROR -> material 'mirror' (reflecting surface)")
+    else:
+        res.fail(ctx.finding(
+            'GLASS', m, m.node,
+            'the MIRROR keyword of a GLAS line is not recognised: a mirror '
+            'is imported as a refracting model glass built from the dummy '
+            'index and Abbe number on the line',
+            construct='glass MIRROR keyword'))
     ab = P.func('AbbeMaterial.__init__')
     if ab.params[:2] == ['n', 'abbe']:
         res.ok('AbbeMaterial(n, abbe) parameter order')
